@@ -11,6 +11,8 @@
 //!       `respin`        remote drives the oldest accepted inbound negotiation (multistream-select dialer)
 //!       `drop` / `ignore` / `dropign`   handler drops a held stream / marks one
 //!                       `ignore_for_keep_alive` / drops an ignored one
+//!       `closew` / `closewi`   handler closes the WRITE half of the last held / last ignored stream
+//!                       (`poll_close` driven to completion) and keeps holding it; `write` writes to the last held one
 //!       `adv <ms>`      advance the clock and wait until futures-timer processed it
 //!       `poll`          one `Connection::poll`
 //!     impl: `<-|pending|event|closed|error:…> sh=<none|asap|later> ni=<negotiating_in> no=<negotiating_out>
@@ -342,6 +344,30 @@ impl Rig {
                     h.ignored.push(s);
                 }
             }
+            "closew" | "closewi" | "write" => {
+                let mut h = self.hs.lock().unwrap();
+                let st = if op[0] == "closewi" { h.ignored.last_mut() } else { h.held.last_mut() };
+                if let Some(st) = st {
+                    let mut done = false;
+                    for _ in 0..16 {
+                        let r = noop_cx(|cx| {
+                            if op[0] == "write" {
+                                Pin::new(&mut *st).poll_write(cx, b"ping").map(|r| r.map(|_| ()))
+                            } else {
+                                Pin::new(&mut *st).poll_close(cx)
+                            }
+                        });
+                        if r.is_ready() {
+                            done = true;
+                            break;
+                        }
+                    }
+                    if !done {
+                        drop(h);
+                        self.remote_failed = true;
+                    }
+                }
+            }
             "dropign" => {
                 let s = self.hs.lock().unwrap().ignored.pop();
                 drop(s);
@@ -552,10 +578,36 @@ fn scenarios(t: u64) -> Vec<Vec<String>> {
         ]
         .concat(),
     );
+    // a held stream whose WRITE half is closed still counts: open past the timeout until it is dropped,
+    // then closed no earlier than a full timeout after the drop; with ignore before / after the close
+    for (open, variant) in [("inb", 0u8), ("out", 0), ("inb", 1), ("inb", 2), ("out", 3)] {
+        let mut sc = s(&[&new, "poll"]);
+        if open == "inb" {
+            sc.extend(s(&["inb", "poll", "respin", "poll"]));
+        } else {
+            sc.extend(s(&["req", "poll", "allow", "poll", "respout", "poll"]));
+        }
+        match variant {
+            1 => sc.extend(s(&["ignore", "closewi", "poll"])), // ignored first: does not count, closes after t
+            2 => sc.extend(s(&["closew", "poll", "ignore", "poll"])), // closed, then ignored
+            3 => sc.extend(s(&["write", "closew", "write", "poll"])),
+            _ => sc.extend(s(&["closew", "poll"])),
+        }
+        sc.push(adv(t + 3));
+        sc.extend(s(&["poll"]));
+        sc.push(adv(2 * t));
+        sc.extend(s(&["poll", "drop", "dropign", "poll"]));
+        sc.push(adv(t.saturating_sub(1)));
+        sc.extend(s(&["poll"]));
+        sc.push(adv(1));
+        sc.extend(s(&["poll"]));
+        v.push(sc);
+    }
     v
 }
 
-const ALPHA: [&str; 11] = ["poll", "ka 1", "ka 0", "req", "allow", "respout", "inb", "respin", "drop", "ignore", "dropign"];
+const ALPHA: [&str; 14] =
+    ["poll", "ka 1", "ka 0", "req", "allow", "respout", "inb", "respin", "drop", "ignore", "dropign", "closew", "closewi", "write"];
 
 pub fn run(args: &Args, out: &mut Out) {
     crate::clock::freeze();
